@@ -44,4 +44,10 @@ theorem heap_write_length (h : Heap α) (a : Nat) (xs : List α) : (h.write a xs
 theorem materializeAt_fresh (decode : List α → List α) (h : Heap α) (s : Nat) :
     materializeAt .fresh decode h s = ((h.alloc (decode (h.read s))).1, .owned h.cells.length) := rfl
 
+theorem constructAt_own (encode : List α → List α) (h : Heap α) (i : Nat) :
+    constructAt .own encode h i = ((h.alloc (encode (h.read i))).1, h.cells.length) := rfl
+
+theorem constructAt_alias (encode : List α → List α) (h : Heap α) (i : Nat) :
+    constructAt .aliasInput encode h i = (h, i) := rfl
+
 end Enc
